@@ -10,7 +10,7 @@ struct C16 : Prop {
 		return "plan = 2-5 library sessions in one process followed by a reference copy of the last session executed with the library's static data restored to "
 		       "process-start content: session kinds = debug / normal (pointer) / normal through the simulated serial device / silent interface (start fails) / serial "
 		       "device cannot be opened / truncated configuration (start fails), auto-flush on or off, activity in between (sequential sends, capacity announcements, "
-		       "messages left deferred behind a stalled leaf, unread queue entries, occupancy and drive state), stop-while-stopped, start-while-running. Oracle: start "
+		       "messages left deferred behind a stalled leaf, unread queue entries, occupancy and drive state), stop-while-stopped, start-while-running (with valid and with rejected arguments). Oracle: start "
 		       "return code; shutdown transcript (SOFTSTOP, zero-speed drive per train, OFF to every connected track output, in that order); every thread created is "
 		       "joined exactly once and no stale handle is joined; library-attributed live heap bytes after stop equal those after the previous session of the same kind; "
 		       "the last session's decoded wire transcript, packet boundaries and final bidib_get_state equal those of its fresh-state reference copy. "
@@ -73,7 +73,7 @@ struct C16 : Prop {
 		else if (kind == "serial_fail") { st.set("mode", "serial"); st.set("flush_ms", flush_ms); st.set("config", 0); st.set("openable", false); }
 		else if (kind == "badcfg") { st.set("mode", "pointer"); st.set("flush_ms", flush_ms); st.set("config", 1); }
 		se.set("start", st); se.set("phases", phs); se.set("stop", true);
-		if (!for_compare) { if (r.chance(250)) se.set("stop_again", true); if (r.chance(200) && (kind == "normal" || kind == "debug")) se.set("start_again", true); }
+		if (!for_compare) { if (r.chance(250)) se.set("stop_again", true); if (r.chance(250) && (kind == "normal" || kind == "debug")) { se.set("start_again", true); se.set("start_again_variant", (int) r.range(1, 5)); } }
 		return se;
 	}
 
